@@ -7,6 +7,7 @@ import datetime
 from functools import partial
 import logging
 import os
+import pickle
 import re
 import shutil
 from warnings import warn
@@ -1670,7 +1671,12 @@ class FlowProposal(RejectionProposal):
             if os.path.exists(weights_file):
                 try:
                     self.flow.reload_weights(weights_file)
-                except (EOFError, OSError, RuntimeError) as e:
+                except (
+                    EOFError,
+                    OSError,
+                    RuntimeError,
+                    pickle.UnpicklingError,
+                ) as e:
                     if not os.path.exists(old_weights_file):
                         raise
                     logger.warning(
